@@ -1,13 +1,13 @@
 """C15: the debug memory tracker (src/mem.c) mirrors the live allocation set; the two
 expansions of MALLOC/CALLOC/REALLOC/FREE/STRDUP (include/libast.h) agree on the live set."""
-import itertools, os, re, shutil, stat
+import heapq, itertools, os, re, shutil, stat
 import vlib
 
 SITE_FILE = 'c15_macro_call_site_file.c'       # harness/c15.c: #line 101 "<this>"
 SITE_LINE = dict(M=101, C=102, R=103, F=104, S=105)
 ESIZE = 3                                       # sizeof(lv_elem_t) in harness/c15.c
 SLOTSZ = 128                                    # LV_SLOTSZ
-NSLOT = 40                                      # LV_NSLOT
+NSLOT = 2100                                    # LV_NSLOT
 DEBUG_MEM = 5
 
 
@@ -23,6 +23,10 @@ BIGLINES = [4294967296, 4294967296 + 77, 2 ** 40 + 3]
 SCENARIOS = ['str', 'array', 'llist', 'dlist', 'amap', 'lmap', 'dmap', 'avec', 'lvec', 'dvec', 'mbuff', 'tok',
              'url', 'objpair', 'split', 'regexp', 'conf', 'socket',
              'adup', 'ldup', 'ddup', 'avdup', 'amdup']     # dup of empty and of filled containers
+# error paths that allocate before they fail (harness/c15.c, "error-path scenarios"): name -> number of variants
+ERR_SCENARIOS = {'e-accept': 5, 'e-sockopen': 10, 'e-sockio': 4, 'e-url': 25, 'e-regexp': 13, 'e-str': 56, 'e-mbuff': 56,
+                 'e-tok': 15, 'e-conf': 24, 'e-array': 10, 'e-llist': 10, 'e-dlist': 10, 'e-tool': 20, 'e-module': 2,
+                 'e-pair': 4}
 
 
 class Sim:
@@ -237,6 +241,245 @@ def small_histories(depth):
     return out
 
 
+# ---- live sets that cross a boundary ------------------------------------------------------
+# The table's storage is resized on every edit; any scheme that resizes it differently (chunks,
+# doubling, a cached capacity) has its own arithmetic at "count is a multiple of the unit", in
+# both directions.  Every power of two up to 1024 (2048 thorough), the multiples of 256 between
+# them and a few non-powers are crossed upwards and downwards with every kind of call at the
+# crossing itself.
+BOUNDS_QUICK = [2, 4, 8, 16, 32, 64, 128, 256, 512, 768, 1024]
+BOUNDS_MORE = [3, 10, 100, 384, 640, 896, 1000, 1280, 1536, 1792, 2048]
+UPS = 'mcsrMCSR'          # r/R: realloc(NULL, n)
+DOWNS = 'fzFZ'            # z/Z: realloc(p, 0)
+STAYS = 'kvKV'            # k: realloc that keeps the address, v: realloc that moves
+VICTIMS = ['first', 'last', 'mid', 'edge', 'second']
+WALK_FILES = ['f.c', 'a_file_name_of_more_than_twenty_characters.c', '', 'N']
+WALK_SIZES = [8, 0, 1, 16, 127, 128, 33]
+
+
+class Walk:
+    """writes a history that drives the number of live tracked blocks; keeps the table order
+    (append on add, shift down on removal, in place on change) only to pick victims by their
+    position in the table.  Never used to judge a result."""
+    def __init__(self, build, rot=0, lvl=5):
+        self.build, self.k = build, rot
+        self.ops = ['L,%d' % lvl]
+        self.order = []               # live slots in table order
+        self.freed = []               # heap of released slot numbers
+        self.top = 0
+
+    def n(self):
+        return len(self.order)
+
+    def _tick(self):
+        self.k += 1
+        return self.k
+
+    def _fresh(self):
+        if self.freed:
+            return heapq.heappop(self.freed)
+        self.top += 1
+        return self.top
+
+    def _file(self):
+        f = WALK_FILES[self._tick() % len(WALK_FILES)]
+        return 'N' if f == 'N' else hx(f)
+
+    def up(self, how):
+        a = self._fresh()
+        k = self._tick()
+        ln = 1 + k % 60000
+        sz = WALK_SIZES[k % len(WALK_SIZES)]
+        if how == 'm':
+            t = 'm,%s,%d,%d,%d' % (self._file(), ln, sz, a)
+        elif how == 'c':
+            t = 'c,%s,%d,%d,%d,%d' % (self._file(), ln, 1 + k % 4, k % 5, a)
+        elif how == 's':
+            t = 's,%s,%d,%s,%d' % (self._file(), ln, hx('w' * (k % 7)), a)
+        elif how == 'r':
+            t = 'r,%s,%d,0,%d,%d' % (self._file(), ln, max(sz, 1), a)
+        elif how == 'M':
+            t = 'M,%s,%d,%d,%d' % (hx(SITE_FILE), SITE_LINE['M'], sz, a)
+        elif how == 'C':
+            t = 'C,%s,%d,%d,%d,%d' % (hx(SITE_FILE), SITE_LINE['C'], k % 9, ESIZE, a)
+        elif how == 'S':
+            t = 'S,%s,%d,%s,%d' % (hx(SITE_FILE), SITE_LINE['S'], hx('w' * (k % 7)), a)
+        else:
+            t = 'R,%s,%d,0,%d,%d' % (hx(SITE_FILE), SITE_LINE['R'], max(sz, 1), a)
+        self.ops.append(t)
+        self.order.append(a)
+
+    def _victim(self, where, edge):
+        n = len(self.order)
+        i = {'first': 0, 'last': n - 1, 'mid': n // 2, 'second': min(1, n - 1),
+             'edge': min(max(edge - 1, 0), n - 1)}[where]
+        return i
+
+    def down(self, how, where='last', edge=0):
+        i = self._victim(where, edge)
+        p = self.order.pop(i)
+        heapq.heappush(self.freed, p)
+        if how == 'f':
+            t = 'f,%d' % p
+        elif how == 'z':
+            t = 'r,%s,%d,%d,0,0' % (self._file(), 1 + self._tick() % 60000, p)
+        elif how == 'F':
+            t = 'F,%d' % p
+        else:
+            t = 'R,%s,%d,%d,0,0' % (hx(SITE_FILE), SITE_LINE['R'], p)
+        self.ops.append(t)
+
+    def stay(self, how, where='mid', edge=0):
+        i = self._victim(where, edge)
+        p = self.order[i]
+        k = self._tick()
+        sz = max(WALK_SIZES[k % len(WALK_SIZES)], 1)
+        if how in 'kK':
+            a = p
+        else:
+            a = self._fresh()
+            heapq.heappush(self.freed, p)
+            self.order[i] = a
+        if how in 'kv':
+            t = 'r,%s,%d,%d,%d,%d' % (self._file(), 1 + k % 60000, p, sz, a)
+        else:
+            t = 'R,%s,%d,%d,%d,%d' % (hx(SITE_FILE), SITE_LINE['R'], p, sz, a)
+        self.ops.append(t)
+
+    def fill(self, target, flavours='m'):
+        while self.n() < target:
+            self.up(flavours[self._tick() % len(flavours)])
+
+    def drain(self, target, how='f', where='last'):
+        while self.n() > target:
+            self.down(how, where)
+
+    def dump(self):
+        self.ops.append('D')
+
+    def line(self, init=0):
+        return 'h %d %d ' % (self.build, init) + ' '.join(self.ops)
+
+
+def flav(build, macro_ok):
+    """the call flavours that touch the table in this build"""
+    if build >= DEBUG_MEM and macro_ok:
+        return UPS, DOWNS, STAYS
+    return UPS[:4], DOWNS[:2], STAYS[:2]
+
+
+def crossing_cases(B, combos, build=5):
+    """shortest histories around one boundary: B+1 live, one release (every kind, every position),
+    one allocation (every kind) - and the mirror image: B-1 live, one allocation, one release"""
+    ups, downs, stays = flav(build, True)
+    out = []
+    dv = [(d, v) for d in downs for v in VICTIMS]
+    if combos is None:
+        allc = [(d, v, u) for (d, v) in dv for u in ups]
+    else:
+        # every release kind x position and every allocation kind at least once, pairs by turns
+        allc = [dv[i % len(dv)] + (ups[(i + i // len(dv)) % len(ups)],) for i in range(combos)]
+    for j, (d, v, u) in enumerate(allc):
+        w = Walk(build, rot=j)
+        w.fill(B + 1)
+        w.down(d, v, B)
+        w.up(u)
+        if j % 4 == 0:
+            w.dump()
+        out.append(w.line(j % 2))
+        w = Walk(build, rot=j + 1)
+        w.fill(B - 1)
+        w.up(u)
+        w.down(d, v, B)
+        w.up(ups[(j + 1) % len(ups)])
+        out.append(w.line(0))
+    return out
+
+
+def dance_cases(B, nrot, build=5, tails=('none', 'dump', 'fwd', 'rev', 'regrow')):
+    """B-2 .. B+2 and back, every step with a rotating kind of call, in-place and moving reallocs at
+    B-1, B and B+1, then (by turns) a dump, a drain from the front / from the back, growth again"""
+    out = []
+    for rot in range(nrot):
+        ups, downs, stays = flav(build, rot % 3 != 2)
+        w = Walk(build, rot=rot * 7)
+        w.fill(max(B - 2, 0), ups if rot % 2 else 'm')
+        plan = [+1, +1, +1, +1, -1, -1, +1, -1, -1, +1, -1, -1, +1, +1, 0, 0, +1, 0, 0, -1, 0, 0, -1, 0, 0, +1, +1, -1]
+        for i, d in enumerate(plan):
+            k = rot + i
+            if d > 0:
+                w.up(ups[k % len(ups)])
+            elif d < 0:
+                if w.n() > 0:
+                    w.down(downs[k % len(downs)], VICTIMS[(k // 2) % len(VICTIMS)], B)
+            elif w.n() > 0:
+                w.stay(stays[k % len(stays)], VICTIMS[k % len(VICTIMS)], B)
+        tail = tails[rot % len(tails)]
+        if tail == 'dump':
+            w.dump()
+        elif tail == 'fwd':
+            w.drain(0, 'f', 'first')
+            w.dump()
+        elif tail == 'rev':
+            w.drain(0, downs[rot % len(downs)], 'last')
+        elif tail == 'regrow':
+            w.drain(0, 'f', 'mid')
+            w.fill(3, ups)
+            w.dump()
+        out.append(w.line(rot % 2))
+    return out
+
+
+def staircase_case(bounds, build=5, rot=0):
+    """one history: up to max(bounds)+1 with a small dance at every boundary, then down again
+    with the same dance at every boundary"""
+    ups, downs, stays = flav(build, True)
+    w = Walk(build, rot=rot)
+    bs = sorted(bounds)
+    for B in bs:
+        w.fill(B - 1)
+        for i, d in enumerate([+1, +1, -1, -1, +1, +1, 0, -1, +1]):
+            k = rot + i + B
+            if d > 0:
+                w.up(ups[k % len(ups)])
+            elif d < 0:
+                w.down(downs[k % len(downs)], VICTIMS[k % len(VICTIMS)], B)
+            else:
+                w.stay(stays[k % len(stays)], 'edge', B)
+    for B in reversed(bs):
+        w.drain(B + 1, 'f', VICTIMS[(rot + B) % len(VICTIMS)])
+        for i, d in enumerate([-1, -1, +1, +1, -1, 0, +1, -1, -1]):
+            k = rot + i + B
+            if d > 0:
+                w.up(ups[k % len(ups)])
+            elif d < 0 and w.n() > 0:
+                w.down(downs[k % len(downs)], VICTIMS[k % len(VICTIMS)], B)
+            elif w.n() > 0:
+                w.stay(stays[k % len(stays)], 'edge', B)
+    w.drain(0)
+    w.up('m')
+    return w.line(0)
+
+
+def random_walk_case(rng, B, build, steps):
+    ups, downs, stays = flav(build, rng.random() < 0.6)
+    w = Walk(build, rot=rng.randrange(1000), lvl=rng.choice([5, 5, 6, 9999]))
+    w.fill(max(B + rng.choice([-2, -1, 0, 1, 2]), 0), ups if rng.random() < 0.3 else 'm')
+    for _ in range(steps):
+        n = w.n()
+        r = rng.random()
+        # pulled back towards B
+        if n == 0 or (r < 0.45 and n <= B + 3) or n < B - 3:
+            w.up(rng.choice(ups))
+        elif r < 0.88 or n > B + 3:
+            w.down(rng.choice(downs), rng.choice(VICTIMS), B)
+        elif r < 0.97:
+            w.stay(rng.choice(stays), rng.choice(VICTIMS), B)
+        else:
+            w.dump()
+    return w.line(rng.randint(0, 1))
+
+
 MACRO = set('MCRSF')
 
 
@@ -279,7 +522,17 @@ class C15(vlib.PropertyCheck):
               'twice (DEBUG=5 tracking macros, DEBUG=4 plain macros); exhaustive histories of depth <= 4 (quick) / 5 (thorough) over two '
               'addresses, boundary tables (file-name lengths 0..25, NULL file name, removal at every position), random histories with '
               'level toggles, foreign blocks and undefined frees, the same macro history on both builds compared directly, and a '
-              'model-independent oracle (table = allocator live set).  Outside the theorems: histories in which the level drops below '
+              'model-independent oracle (table = allocator live set); live sets that cross every power of two up to 1024 (thorough: 2048), '
+              'the multiples of 256 between them and a few other counts, upwards and downwards, with every kind of call (malloc, calloc, strdup, '
+              'realloc of NULL; free, realloc to 0; realloc in place and moving; direct and through the macros) at the crossing and every '
+              'position of the released record (first, second, middle, at the boundary, last), as shortest histories, as a B-2..B+2 dance, as one '
+              'staircase over all boundaries and as random walks pulled towards the boundary - the table\'s own storage is the sanitized real '
+              'allocator\'s, so a record written or read past it is a fault; (3) failure exits of the library that allocate before they fail '
+              '(accept on an unopened / non-socket / non-listening descriptor, bind, connect and socket failures, send to a closed peer, refused '
+              'string / buffer / container operations, URLs and regular expressions that do not parse or compile, tokenizer sources with '
+              'unterminated quotes, configuration files that are missing, lack the magic line, include missing files, name unknown contexts, '
+              'misuse the %-builtins or hold over-long lines, a module that cannot be loaded) on the DEBUG=5 build with the table required empty '
+              'afterwards.  Outside the theorems: histories in which the level drops below '
               'DEBUG_MEM between an allocation and its release (stale records are then possible by design; the model still mirrors the '
               'code and the correspondence check covers them), a NULL answer of the allocator (fatal ASSERT in the wrappers), failure to '
               'grow the table itself.'),
@@ -287,6 +540,10 @@ class C15(vlib.PropertyCheck):
 
     # ---- two builds behind one dispatcher ------------------------------------------------
     def build_impl(self):
+        # one run of a binary over the whole thorough case file takes minutes; a hang is still cut off
+        if getattr(self, 'tier', 'quick') == 'thorough':
+            self.case_timeout = 1500
+            os.environ['LV_C15_TIMEOUT'] = '1400'
         h = os.path.join(vlib.VERIF, 'harness', self.harness)
         log = ''
         exes = {}
@@ -362,8 +619,37 @@ class C15(vlib.PropertyCheck):
             for n in ([0, 1, 2, 5, 9] if quick else list(range(0, 40))):
                 cases.append('scn 5 %s %d' % (name, n))
             cases.append('scn 4 %s 3' % name)
+        # every failure exit that allocates first: all variants in both tiers
+        for name in sorted(ERR_SCENARIOS):
+            for n in range(ERR_SCENARIOS[name] if quick else 2 * ERR_SCENARIOS[name]):
+                cases.append('scn 5 %s %d' % (name, n))
+            cases.append('scn 4 %s 1' % name)
+        # live sets that cross a power of two / a multiple of 256, in both directions
+        cases += self.boundary_cases(quick, rng)
         self._cases = cases
         return cases
+
+    def boundary_cases(self, quick, rng):
+        out = []
+        bounds = BOUNDS_QUICK if quick else sorted(BOUNDS_QUICK + BOUNDS_MORE)
+        for B in bounds:
+            if quick:
+                combos = 40 if B <= 256 else (20 if B <= 768 else 12)
+                nrot = 10 if B <= 256 else 5
+            else:
+                combos = None if B <= 256 else (80 if B <= 512 else (40 if B <= 1024 else 24))
+                nrot = 20 if B <= 256 else (10 if B <= 1024 else 4)
+            out += crossing_cases(B, combos, 5)
+            out += dance_cases(B, nrot, 5)
+            if B >= 128:
+                out += crossing_cases(B, 8 if quick else 16, 4)     # direct calls in the plain-macro build
+                out += dance_cases(B, 2 if quick else 3, 4)
+            for _ in range((12 if B <= 256 else 4) if quick else (300 if B <= 256 else 30)):
+                out.append(random_walk_case(rng, B, rng.choice([5, 5, 5, 4]), rng.choice([10, 25, 60])))
+        for rot in range(2 if quick else 6):
+            out.append(staircase_case(bounds if rot % 2 == 0 else [b for b in bounds if b % 256 == 0], 5, rot))
+        out.append(staircase_case(BOUNDS_QUICK, 4, 1))
+        return out
 
     def search_gen(self, tier, rng):
         cases = []
